@@ -11,9 +11,9 @@ import subprocess
 import sys
 import time
 
-VERIF = os.path.dirname(os.path.dirname(os.path.abspath(__file__)))
+VERIF = os.environ.get("PF_VERIF") or os.path.dirname(os.path.dirname(os.path.abspath(__file__)))
 REPO = os.environ.get("PYFLWDIR_REPO", "/repo")
-LEAN_DIR = os.path.join(VERIF, "lean")
+LEAN_DIR = os.environ.get("PF_LEAN_DIR") or os.path.join(VERIF, "lean")
 DRIVER = os.path.join(LEAN_DIR, ".lake", "build", "bin", "pfdriver")
 
 if os.environ.get("PF_JIT", "0") != "1":
